@@ -12,8 +12,9 @@ Contents
 * `Ref.D`, `Ref.E`: the reference as a total, structurally recursive, executable function of a
   `Line` (defined part-major in `Proofs/C04Lemmas.lean`: `rows L k` = the rows of parts `k … 1`).
 * algebraic facts about the reference (`Ref.*` theorems);
-* the bridge `Line.toWorld`, `entryTimes`, the target statement `SerialTiming` (a `Prop`, the
-  stretch goal; NOT proved in general), a sound boolean checker for instances (`checkB_sound`);
+* the bridge `Line.toWorld`, `entryTimes`, the target statement `SerialTiming` (a `Prop`; it is
+  PROVED IN FULL, for every well-formed line, as `C04W.serial_timing` in `Props/C04W.lean`), a sound
+  boolean checker for instances (`checkB_sound`);
 * the general proof for the shortest line, source → sink (`serial_timing_source_sink`, by an
   invariant over `runLoop`), that such a run completes when the budget is finite
   (`source_sink_completes`) and its weight independence (`source_sink_weight_independence`);
@@ -256,7 +257,7 @@ def SerialTimingAt (L : Line) (seed wmod : Nat) (T : Int) (f : Nat) : Prop :=
       (∀ j, 1 ≤ j → j ≤ L.n → entryTimes (runLine L seed wmod T f) j = Ref.entries L j T N) ∧
       ((runLine L seed wmod T f).dev L.n).recvCount = countBy L T N
 
-/-- **Target theorem (stretch goal), as a proposition.**  For every well-formed line (cycle times
+/-- **Target theorem, as a proposition** (proved: `C04W.serial_timing`).  For every well-formed line (cycle times
 and delays `≥ 0`, capacities `≥ 1`), every seed and modulus of the tie-break weights, every
 horizon and every amount of fuel with which the run completes, the simulator's entry times equal
 the reference's.  (For a Zeno line — e.g. all cycle times 0 and no budget — no fuel suffices, just
